@@ -9,6 +9,20 @@ NOTES = ("Technique family: static analysis only. Every check extracts the progr
 _TB = ("Trusted: rustc nightly front end (HIR/MIR, types, trait resolution), the hcx export, the rule tables. ")
 
 CLAIMED = {
+    "C07": {
+        "text": "Decides structural necessary conditions of `the reported budget equals its definition`: on the BFV and BGV "
+                "projections invariant_noise_budget runs the pipeline of the definition (phase by the secret-key dot product, "
+                "scaling by the plain modulus for BFV only, CRT composition, centred infinity norm against the total modulus "
+                "of the ciphertext's own level, in this order), returns bits(q_level) - bits(norm) - 1 clamped at 0 where the "
+                "modulus bit count is that of the level's TOTAL modulus (the sum of per-prime bit counts is a recognised wrong "
+                "form), poly_infty_norm centres against half_round_up(modulus) and keeps the maximum, the computation runs on "
+                "coefficient-form data, and error / ternary samples carry one value in every RNS component.",
+        "note": _TB + "Not decided: that the reported number equals the exact budget, the fresh-encryption bound, the growth "
+                "under negation / addition, exact decryption below the threshold — value-level facts. Formula forms outside "
+                "the small recognised table are reported as unresolved, not as violations.",
+        "technique": "scheme-projected call-sequence typestate of the phase buffer + symbolic formula polynomial with a table of recognised forms + representation typestate",
+        "design_ref": "DESIGN.md §9.5",
+    },
     "C19": {
         "text": "Decides structural necessary conditions of extraction, trace and packing: extract_lwe keeps coefficient "
                 "`term` of every RNS component of c0 and shifts c1 by exactly 2N - term (0 for term 0); assemble_lwe stores "
@@ -250,6 +264,4 @@ CLAIMED = {
 
 _NYB = "rules designed (DESIGN.md §4) but not built yet in this tree; not claimed until the check exists"
 NOT_APPLICABLE = {
-    "C07": "every clause compares a reported integer with exact big-integer arithmetic on runtime phase/noise "
-           "values; no necessary condition is visible in the shape of the code (DESIGN.md §5)",
 }
